@@ -123,6 +123,16 @@ Theorem same_content_idempotent : forall H, (forall x, wf_id (H x)) -> forall s 
 Proof. exact same_content_idempotent_proof. Qed.
 Print Assumptions same_content_idempotent.
 
+(* Put post-condition on the writer's side: when copyFile has written its last byte, the file it wrote holds
+   exactly x - whatever other processes did meanwhile (the harness checks on the real cache that the file named by
+   OutputFile(out) holds x when Put has returned, also for goroutines sharing one cache handle) *)
+Theorem put_copy_complete : forall H, (forall x, wf_id (H x)) -> forall s p c s' k x i off,
+  Inv H s -> H_cf_on H (st_stored s) -> nth_error (st_procs s) p = Some (PPutCopy k x i off) ->
+  step H s (LStep p c) = Some s' -> nth_error (st_procs s') p = Some (PPutClose k x i) ->
+  exists f', get_file (st_fs s') i = Some f' /\ fdata f' = x.
+Proof. exact put_copy_complete_proof. Qed.
+Print Assumptions put_copy_complete.
+
 (* the quiescence premise is necessary: with ONE truncation of the data file while its writer holds it open,
    GetFile returns the path of a file whose content was never stored (replayed on the implementation by the
    histories of kind midwrite-truncate) *)
